@@ -69,6 +69,7 @@ package adt
 //@   ensures  (result == isDefault)    <==> (a != notDefault && b != notDefault && (a == isDefault || b == isDefault))
 //@   ensures  (result == notDefault)   <==> (a == notDefault || b == notDefault)
 //@   ensures  (result == maybeDefault) <==> (a == maybeDefault && b == maybeDefault)
+//@   ensures  result == maxMode(a, b)
 
 //@ func combineDefault2
 //@   requires a <= notDefault && b <= notDefault
@@ -382,3 +383,60 @@ package adt
 //@   ensures b.X.ip == 0 ==> isBottomV(result)
 //@   ensures b.X.ip != 0 ==> isNumV(result) && intOf(result) == a.X.ip % b.X.ip
 //@   assigns c.errs
+
+// ---- C01: the order-free accumulators of a node ----
+//@ bvtypes conjunctFlags condition
+
+//@ func (condition).meets
+//@   ensures result == (c & x == x)
+
+//@ func (*nodeContext).reportConflict
+//@   assumed A-int: records a kind conflict error on the node
+//@   assigns n.errs, n.ctx.errs
+//@ func (*nodeContext).addErr
+//@   assumed A-int: records an error on the node
+//@   assigns n.errs
+//@ func (*OpContext).Newf
+//@   assumed A-int: formats an error message
+//@ func (*Vertex).reportFieldCycleError
+//@   assumed A-int: reports a cyclic field dependency
+//@ func (*nodeContext).unshare
+//@   assumed A-int: undoes structure sharing of the node; arc types are not touched
+//@ func (*OpContext).Source
+//@   assumed A-int: current source node
+
+// per-conjunct closedness info, as a view id -> (kind, flags): the entry of id
+// is intersected with k / joined with flags, or created; other entries are untouched
+//@ func (*nodeContext).updateConjunctInfo
+//@   requires n != nil && n.ctx != nil
+//@   loop 0 invariant -1 <= rangeindex && rangeindex < len(n.conjunctInfo) && n.conjunctInfo == old(n.conjunctInfo)
+//@   loop 0 invariant forall j int :: 0 <= j && j <= rangeindex ==> n.conjunctInfo[j].id != id.defID
+//@   loop 0 invariant forall j int :: 0 <= j && j < len(n.conjunctInfo) ==> n.conjunctInfo[j] == old(n.conjunctInfo[j])
+//@   ensures [found] !old(n.ctx.OpenDef) && !(id.defID != 0 && id.opID != old(n.ctx.opID)) ==> exists j int :: 0 <= j && j < len(n.conjunctInfo) && n.conjunctInfo[j].id == id.defID
+//@   ensures [others] forall j int :: 0 <= j && j < old(len(n.conjunctInfo)) && old(n.conjunctInfo[j].id) != id.defID ==> j < len(n.conjunctInfo) && n.conjunctInfo[j] == old(n.conjunctInfo[j])
+//@   ensures [meet] forall j int :: 0 <= j && j < old(len(n.conjunctInfo)) && old(n.conjunctInfo[j].id) == id.defID && (forall i int :: 0 <= i && i < j ==> old(n.conjunctInfo[i].id) != id.defID) && !old(n.ctx.OpenDef) && !(id.defID != 0 && id.opID != old(n.ctx.opID)) ==> n.conjunctInfo[j].kind == old(n.conjunctInfo[j].kind) & k && n.conjunctInfo[j].flags == old(n.conjunctInfo[j].flags) | flags && n.conjunctInfo[j].id == id.defID
+//@   ensures [grow] len(n.conjunctInfo) == old(len(n.conjunctInfo)) || len(n.conjunctInfo) == old(len(n.conjunctInfo)) + 1
+//@   assigns n.conjunctInfo, allelems(conjunctInfo), n.ctx.stats.*
+
+// (P) C01/C03: the kind mask of a node is the intersection of the kinds of its conjuncts
+//@ func (*nodeContext).updateNodeType
+//@   requires n != nil && n.ctx != nil
+//@   ensures [meet] k != BottomKind ==> n.kind == old(n.kind) & k
+//@   ensures [bottomk] k == BottomKind ==> n.kind == old(n.kind) && !result
+//@   ensures [result] k != BottomKind ==> result == (n.kind != BottomKind)
+//@   assigns n.kind, n.kindExpr, n.kindID, n.errs, n.ctx.errs, n.conjunctInfo, allelems(conjunctInfo), n.ctx.stats.*
+
+// arc types form the chain member < required < optional < pending; merging takes the minimum
+//@ func (*Vertex).updateArcType
+//@   requires v != nil
+//@   ensures [min] v.ArcType == old(v.ArcType) || (t < old(v.ArcType) && old(v.ArcType) != ArcNotPresent && v.ArcType == t)
+//@   ensures [tighten] t < old(v.ArcType) && old(v.ArcType) != ArcNotPresent && old(v.ArcType) != ArcPending ==> v.ArcType == t
+//@   assigns heap
+
+// lemmas: the accumulators are commutative, associative and idempotent
+//@ spec func maxMode(a defaultMode, b defaultMode) defaultMode { ite(a > b, a, b) }
+//@ spec func minArc(a ArcType, b ArcType) ArcType { ite(a < b, a, b) }
+//@ lemma kind_meet_acu: forall a, b, c Kind :: a & b == b & a && (a & b) & c == a & (b & c) && a & a == a && a & TopKind == a
+//@ lemma flags_join_acu: forall a, b, c conjunctFlags :: a | b == b | a && (a | b) | c == a | (b | c) && a | a == a
+//@ lemma mode_max_acu: forall a, b, c defaultMode :: maxMode(a, b) == maxMode(b, a) && maxMode(maxMode(a, b), c) == maxMode(a, maxMode(b, c)) && maxMode(a, a) == a && maxMode(a, maybeDefault) == a
+//@ lemma arc_min_acu: forall a, b, c ArcType :: minArc(a, b) == minArc(b, a) && minArc(minArc(a, b), c) == minArc(a, minArc(b, c)) && minArc(a, a) == a
